@@ -218,28 +218,7 @@ func runC13(c *Ctx) {
 	// --- R3
 	commandCodec(c, "R3")
 	sharedHandle(c, "R3", p.MustMethod("gossip", "Message", "Encode"), p.MustMethod("gossip", "Message", "Decode"))
-	// raft log entries: the raftLog methods that build a msgpack encoder / decoder (resolved by role)
-	var rlEnc, rlDec *ssa.Function
-	for _, fn := range p.ModFuncs {
-		if fn.Signature.Recv() == nil || !namedIs(fn.Signature.Recv().Type(), pkgConsensus, "raftLog") {
-			continue
-		}
-		eachInstr(fn, func(in ssa.Instruction) {
-			if cc := callCommon(in); cc != nil && cc.StaticCallee() != nil && cc.StaticCallee().Pkg != nil && strings.Contains(cc.StaticCallee().Pkg.Pkg.Path(), "codec") {
-				if strings.HasPrefix(cc.StaticCallee().Name(), "NewEncoder") {
-					rlEnc = fn
-				}
-				if strings.HasPrefix(cc.StaticCallee().Name(), "NewDecoder") {
-					rlDec = fn
-				}
-			}
-		})
-	}
-	if rlEnc == nil || rlDec == nil {
-		c.Fail("R3", "raftLog:codec", 0, "the raft log store no longer encodes/decodes its entries with msgpack")
-	} else {
-		sharedHandle(c, "R3", rlEnc, rlDec)
-	}
+	raftLogCodecHandle(c, "R3")
 	noPooledAlias(c, "R3", []string{"gossip", pkgConsensus, "protocol", "server"})
 	// --- R4
 	for _, k := range []struct{ pkg, typ string }{{"protocol", "MembershipResult"}, {"protocol", "IncrementalResponse"}, {"protocol", "Snapshot"}, {"protocol", "SignedSnapshot"}, {"protocol", "BatchSnapshots"}, {"gossip", "Message"}} {
@@ -364,4 +343,41 @@ func noPooledAlias(c *Ctx, rule string, pkgs []string) {
 	if bad == 0 {
 		c.Ok(rule, "no-recycled-buffer-escapes", 0, fmt.Sprintf("%d byte-producing functions in the codec packages, none returns memory of a recycled buffer", n))
 	}
+}
+
+// raftLogCodecHandle: the raft log store writes and reads its entries with the same msgpack handle.
+// The encoder is looked for in the region of StoreLog, the decoder in the region of GetLog (the
+// codec calls may sit in methods of the store, in plain helper functions or inline), and both
+// handles are described relative to the store (`recv.codec`).
+func raftLogCodecHandle(c *Ctx, rule string) {
+	p := c.P
+	find := func(root *ssa.Function, prefix string) (string, ssa.Instruction) {
+		rg := p.RegionOf(root, 2)
+		var s string
+		var at ssa.Instruction
+		rg.Instrs(func(site regionSite, in ssa.Instruction) {
+			cc := callCommon(in)
+			if cc == nil || cc.StaticCallee() == nil || cc.StaticCallee().Pkg == nil || !strings.HasPrefix(cc.StaticCallee().Name(), prefix) || !strings.Contains(cc.StaticCallee().Pkg.Pkg.Path(), "codec") || len(cc.Args) < 2 {
+				return
+			}
+			t := rg.Term(site, cc.Args[1])
+			s = t.Render(func(x *Term, rec func(*Term) string) (string, bool) {
+				if x.Op == "param" && x.Idx == 0 && x.Fn == root {
+					return "recv", true
+				}
+				return "", false
+			})
+			at = in
+		})
+		return s, at
+	}
+	sl := p.MustMethod(pkgConsensus, "raftLog", "StoreLog")
+	gl := p.MustMethod(pkgConsensus, "raftLog", "GetLog")
+	he, at := find(sl, "NewEncoder")
+	hd, _ := find(gl, "NewDecoder")
+	if he == "" || hd == "" {
+		c.Fail(rule, "raftLog:codec", sl.Pos(), "the raft log store no longer encodes/decodes its entries with msgpack (encoder handle: "+he+", decoder handle: "+hd+")")
+		return
+	}
+	c.Check(he == hd, rule, "raftLog:codec", at.Pos(), "encoder and decoder share the handle "+he, "the raft log store encodes with handle "+he+" and decodes with "+hd+": what is written is not what is read")
 }
